@@ -117,6 +117,7 @@ class MetricsDriver:
         self.nrec = 0
         self.now = 0
         self.depth = {str(t): 0 for t in range(1, self.nt + 1)}
+        self.frames = {}
         self.cblog = {s: [] for s in range(1, self.ns + 1)}
         self.objs = {}
         self.made = set()
@@ -171,8 +172,15 @@ class MetricsDriver:
             cb = self._cb(sid, sid % 2 == 0)
             # every scope carries the SAME name (scope names need not be unique - two streams of one generator, two
             # handlers of one kind): nothing about completion may be keyed by the name
+            # how the block will be LEFT rotates: normally, by an exception of its body, by a CancelledError of its body (a
+            # timeout around it, say) - caught just outside the scope by code that goes on.  A scope that was left is
+            # finished, however it was left.  (Async scopes are left normally: with members they wait.)
+            mode = ("return", "E", "C")[sid % 3] if k != "a" else "return"
+            if mode != "return":
+                w.do(str(t), "tryu")
             w.do(str(t), "xscope", k == "a", sid, "metric-scope", dict(completion=cb))
-            self.depth[str(t)] += 1
+            self.frames.setdefault(str(t), []).append(mode)
+            self.depth[str(t)] += 1 if mode == "return" else 2
             return self._obs("open", self._res(t))
         if name == "Make":
             # the scope object is made now (registered under the maker's current scope), kept, and entered later - maybe by
@@ -188,6 +196,7 @@ class MetricsDriver:
             # must not lose them
             _gc()
             w.do(str(t), "enterprep")
+            self.frames.setdefault(str(t), []).append("return")
             self.depth[str(t)] += 1
             return self._obs("enter", self._res(t))
         if name == "OffLoop":
@@ -218,8 +227,10 @@ class MetricsDriver:
             return self._obs("offloop", res)
         if name == "Close":
             t = args[0]
-            w.do(str(t), "leave", "return")
-            self.depth[str(t)] -= 1
+            fr = self.frames.get(str(t)) or ["return"]
+            mode = fr.pop()
+            w.do(str(t), "leave", mode)
+            self.depth[str(t)] -= 1 if mode == "return" else 2
             return self._obs("close", self._res(t))
         if name == "Start":
             t, u, how = args
